@@ -13,6 +13,13 @@ func runC04(e *env) {
 		return c06Opts{nNodes: 2 + r.intn(3), mult: 1 + r.intn(3), lit: pick(r, []int{0, 300}), ni: r.chance(1, 5),
 			nEvents: 14 + r.intn(30), removal: 35 + r.intn(25), startDelta: 1 + r.intn(3), xWeight: 2}
 	})
+	// reordering scenario (scripted prefix + random tail): instance x registered at A, removed at A or B, the
+	// tombstone (broadcast or full state) reaches C - which holds the key but never heard of x - before the
+	// older registration message does
+	c06RunMany(e, "C04.run", 300*e.scale, 15, func(i int, r *rng) c06Opts {
+		return c06Opts{nNodes: 3 + r.intn(2), mult: 1 + r.intn(3), lit: pick(r, []int{0, 300}), ni: r.chance(1, 5),
+			nEvents: r.intn(16), removal: 35, startDelta: 1 + r.intn(3), xWeight: 1, script: "unknownleft"}
+	})
 	// retention stream: hours-old entries and tombstones against a one-hour retention
 	c06RunMany(e, "C04.run", 250*e.scale, 12, func(i int, r *rng) c06Opts {
 		return c06Opts{nNodes: 2 + r.intn(2), mult: 2, lit: 3600, gcOld: true, nEvents: 12 + r.intn(24), removal: 30, startDelta: 3, xWeight: 1}
